@@ -225,6 +225,7 @@ func (n *DNet) Deliver(d *Dgram) bool {
 	n.mu.Unlock()
 	if peer != nil {
 		if n.env.Pool.Enabled {
+			n.env.Pool.CheckWireRaw(d.Data)
 			if m, err := DecodeUDP(d.Data); err == nil {
 				n.env.Pool.CheckWire(m)
 			}
